@@ -1,23 +1,45 @@
 """C04 — S(q): every total and partial column equals the density-mode definition; default wave-vector set.
 
-Oracle: pbt/ref/sqref.py (density modes by one matrix product per frame, written from the definition).
+Oracle: pbt/ref/sqref.py (density modes by one matrix product per frame, written from the definition; frame k is
+evaluated with frame k's OWN species labels).
 Facets
   explicit_vectors   caller-supplied integer wave-vector lists (duplicates, sign flips, permutations, Pythagorean mates)
   default_range      qrange + onlypositive: the class must use the default set for numofq = int(2 qrange / min(2 pi / L))
   analytic_lattice   (centred) lattices: S is known in closed form (Bragg peaks), independent of the reference code
   default_vectors    exhaustive: choosewavevector(d, numofq, onlypositive) equals the enumerated set
+  minimal_sizes      smallest inputs the statement still defines: N = K (one particle per species), N = 1, N = 2, one
+                     species with a single particle, K = 6 with N <= 8 (only q, Sq), one frame, ONE wave vector, one
+                     |q| group, the smallest qrange whose documented default set is not empty
+  repeat_calls       state between calls: getresults() twice on one object; sq objects built alternately on two
+                     Snapshots objects (also of identical shapes); on ONE Snapshots object whose positions / label
+                     arrays were overwritten in place between the constructions; with same-shaped qvector arrays of
+                     other contents; with ONE qvector array overwritten in place.  Every result must equal the
+                     definition for the contents at call time (memo keyed by id()/shape, cached species indices,
+                     cached scaled wave-vector tables)
+  wavevector_calls   sequences of choosewavevector(ndim, numofq, onlypositive) calls whose arguments differ in one
+                     argument or not at all; the caller overwrites every returned array; sq(..., qrange=...) objects
+                     are built in between.  Every call equals the enumerated documented set regardless of history
+Input class present in every facet that draws a trajectory (system_st): "labels-per-frame" — about 40 % of the
+multi-frame cases with 2..5 species carry a different arrangement of the same multiset of labels in every frame (swap
+Monte Carlo, `fix atom/swap`): sq reads snapshot.particle_type of EACH frame, only the counts come from frame 0.  The
+total, the sum rule and positivity are blind to a routine that keeps frame 0's labels, the partial columns are not.
 
 Preconditions imposed by construction (what callers pass):
-  * orthogonal cell, same N / box / types in all frames (asserted in sq.__init__, sq.py L147-150)
+  * orthogonal cell, same N / box in all frames (asserted in sq.__init__, sq.py L147-150); the same COMPOSITION (count
+    of every species) in all frames; the labels themselves may move between frames
   * type ids exactly 1..K, all present (the selectors `== 1 ... else` in sq.py assume it)
   * integer wave vectors, no zero vector (docs/sq.md: n_x, n_y, n_z integers)
   * saveqvectors only together with an outputfile (sq.py slices outputfile[:-4])
   * default range: numofq chosen so that the documented set is not empty and 2 qrange/min(2pi/L) is not within 0.05
     of an integer (the int() truncation is then unambiguous)
+  * repeat_calls only evaluates objects constructed AFTER the last in-place change of their inputs (whether an older
+    object sees later changes of arrays it was given is not promised either way); an array returned by
+    choosewavevector is only overwritten when it is writeable
 Tolerances (derived, DESIGN 1.4): the library rounds each per-vector value to 1e-6 before averaging; a float
 difference of 1e-12 between the two computations can flip one rounding, i.e. move a group mean by at most 1e-6;
 hence atol 1.01e-6 on every S column after emulating the rounding.  Grouping key |q| rounded to 6 decimals: cases
-where some |q| lies within 1e-12 of a rounding boundary are excluded and counted.
+where some |q| lies within 1e-12 of a rounding boundary are excluded and counted.  The new facets use the same
+comparison (compare_with_reference / _default_set_call): nothing is compared bit for bit between two calls.
 """
 from __future__ import annotations
 
@@ -38,18 +60,25 @@ from PyMatterSim.static.sq import sq
 from PyMatterSim.utils.wavevector import choosewavevector
 
 RULE = ("orthogonal 2D/3D boxes (unequal / partly equal / cubic / commensurate edges, any origin) x K 1..6 species "
-        "(all present, arbitrary composition) x N <= 30 x 1..3 frames x positions inside or outside the box x "
-        "{explicit integer wave-vector lists | qrange with onlypositive in False,True,'x','y','z'}; "
-        "non-trivial = 2 <= K <= 5 with unequal species counts and not all edges equal and >= 2 supplied vectors "
-        "share one |q|")
+        "(all present, arbitrary composition) x N <= 30 x 1..3 frames (species labels fixed, or permuted between "
+        "frames with the composition fixed) x positions inside or outside the box x "
+        "{explicit integer wave-vector lists | qrange with onlypositive in False,True,'x','y','z'}; plus minimal sizes "
+        "(N = K, N = 1, N = 2, one vector, one |q| group, smallest non-empty default range), several calls in one "
+        "process (same objects overwritten in place, alternating inputs, getresults() twice) and sequences of "
+        "choosewavevector calls; non-trivial (main facets) = 2 <= K <= 5 with unequal species counts and not all "
+        "edges equal and >= 2 supplied vectors share one |q|")
 ASSUMPTIONS = [
-    "type ids exactly 1..K with all K present; same N, box and types in every frame",
+    "type ids exactly 1..K with all K present; same N and box in every frame; the same number of particles of every "
+    "species in every frame (the labels may be arranged differently in every frame)",
     "integer wave vectors without the zero vector; saveqvectors only with an outputfile",
     "the 'documented range' of the default set is the half-open integer range [-floor(numofq/2), floor(numofq/2)) "
     "that the golden tests encode (DESIGN C04 scope decision)",
     "per-vector values are rounded to 1e-6 before the |q| average (stated in the property); comparison atol 1.01e-6",
     "cases with some |q| within 1e-12 of a 6-decimal rounding boundary are excluded (counted in extra.excluded_boundary)",
     "onlypositive='z' is only meaningful in 3D and is not generated in 2D",
+    "N = 1 (K = 1) is inside the statement: rho(q) is one phase factor and S(q) = 1",
+    "an sq object is evaluated only if it was constructed after the last in-place change of its input arrays; the "
+    "caller may overwrite a (writeable) array returned by choosewavevector without affecting later calls",
 ]
 
 ATOL = 1.01e-6
@@ -608,8 +637,9 @@ def describe_minimal(case):
 
 # ----------------------------------------------------------------------------- state between calls
 
-REPEAT_VARIANTS = ["two-systems", "two-systems-same-shape", "positions-inplace", "labels-inplace",
-                   "positions+labels-inplace", "qvector-same-shape", "qvector-inplace", "same-object-twice"]
+REPEAT_VARIANTS = ["two-systems", "two-systems-same-shape", "two-systems-same-shape", "positions-inplace",
+                   "positions-inplace", "labels-inplace", "positions+labels-inplace", "positions+labels-inplace", "qvector-same-shape",
+                   "qvector-inplace", "qvector-inplace", "same-object-twice"]
 
 
 @st.composite
@@ -913,20 +943,20 @@ FACETS = [
           rule="simple / centred lattices with m_k cells per axis, optional second species on the centres: closed-form "
                "Bragg-peak values; non-trivial = the list holds Bragg and non-Bragg vectors"),
     _enum,
-    Facet("minimal_sizes", minimal_case(), check_minimal, quick=600, thorough=20000, describe=describe_minimal,
+    Facet("minimal_sizes", minimal_case(), check_minimal, quick=900, thorough=20000, describe=describe_minimal,
           shards_quick=2,
           rule="smallest inputs the statement still defines: N = K (every species one particle), N = 1, N = 2, one "
                "species with a single particle, K = 6 with N <= 8, 1..3 frames (per-frame labels included) x one wave "
                "vector / one |q| group / two groups / the smallest qrange whose documented default set is not empty "
                "(numofq 2,3 for the full set, 4,5 with onlypositive); non-trivial = compared (not excluded)"),
-    Facet("repeat_calls", repeat_case(), check_repeat, quick=400, thorough=15000, describe=describe_repeat,
-          shards_quick=2,
+    Facet("repeat_calls", repeat_case(), check_repeat, quick=800, thorough=15000, describe=describe_repeat,
+          shards_quick=4,
           rule="several sq objects in one process: getresults() twice on one object; two different Snapshots objects "
                "(also of identical shapes) alternately; ONE Snapshots object whose positions / label arrays are "
                "overwritten in place between constructions; same-shaped qvector arrays with other contents; one "
                "qvector array overwritten in place; every result equals the definition for the contents at call "
                "time; non-trivial = the two inputs have different expected results (or getresults() twice)"),
-    Facet("wavevector_calls", wavevector_case(), check_wavevector_calls, quick=400, thorough=15000,
+    Facet("wavevector_calls", wavevector_case(), check_wavevector_calls, quick=500, thorough=15000,
           describe=describe_wavevector, shards_quick=2,
           rule="3..9 calls of choosewavevector(ndim, numofq, onlypositive) in one process whose arguments differ in "
                "one argument / not at all, each returned array overwritten by the caller afterwards, interleaved with "
@@ -938,15 +968,24 @@ FACETS = [
 MANIFEST = {
     "text": ("Every column returned by static.sq.sq(...).getresults() (q, Sq, Sqaa, Sqab for 1..5 species; q, Sq for 6) "
              "is compared with an independent density-mode reference (rounding to 1e-6 and the |q| group-by emulated, "
-             "atol 1.01e-6) on generated trajectories: explicit integer wave-vector lists (facet explicit_vectors) and "
-             "qrange/onlypositive defaults (default_range); the sum rule and non-negativity are checked on the returned "
-             "numbers, the CSV and per-vector CSV files against the returned / per-vector reference values; closed-form "
-             "Bragg peaks of simple and centred lattices (analytic_lattice); choosewavevector is enumerated exhaustively "
-             "for d 2/3, numofq 2..40/24 and all onlypositive values (default_vectors)."),
+             "atol 1.01e-6) on generated trajectories, including trajectories whose species labels are permuted "
+             "between frames at fixed composition (each frame evaluated with its own labels): explicit integer "
+             "wave-vector lists (facet explicit_vectors) and qrange/onlypositive defaults (default_range); the sum rule "
+             "and non-negativity are checked on the returned numbers, the CSV and per-vector CSV files against the "
+             "returned / per-vector reference values; closed-form Bragg peaks of simple and centred lattices "
+             "(analytic_lattice); choosewavevector is enumerated exhaustively for d 2/3, numofq 2..40/24 and all "
+             "onlypositive values (default_vectors); minimal sizes — N = K, N = 1, N = 2, a species with one particle, "
+             "six species, one wave vector, one |q| group, the smallest non-empty default range (minimal_sizes); "
+             "state between calls — getresults() twice on one object, objects built alternately on two Snapshots "
+             "objects, on one Snapshots object whose position / label arrays were overwritten in place, on same-shaped "
+             "or in-place overwritten qvector arrays, each result compared with the definition for the contents at "
+             "call time (repeat_calls); sequences of choosewavevector calls with varying arguments, caller-overwritten "
+             "results and sq(qrange) objects in between, each equal to the enumerated set (wavevector_calls)."),
     "note": ("Trusted base: numpy cos/sin/matmul, pbt/ref/sqref.py. Assumes type ids 1..K all present, identical N/box/"
-             "types in all frames, orthogonal cells, integer wave vectors. 'Documented range' = the half-open integer "
-             "range [-floor(numofq/2), floor(numofq/2)) encoded by the golden tests. Cases with |q| within 1e-12 of a "
-             "6-decimal rounding boundary are excluded and counted."),
+             "composition in all frames (labels may move between frames), orthogonal cells, integer wave vectors. "
+             "'Documented range' = the half-open integer range [-floor(numofq/2), floor(numofq/2)) encoded by the "
+             "golden tests. Cases with |q| within 1e-12 of a 6-decimal rounding boundary are excluded and counted. "
+             "Objects are only evaluated when constructed after the last in-place change of their inputs."),
     "technique": ("property-based testing (Hypothesis): reference-model differential + closed-form oracle + exhaustive "
-                  "enumeration of the default wave-vector set"),
+                  "enumeration of the default wave-vector set + call-sequence (state between calls) cases"),
 }
